@@ -443,6 +443,13 @@ public:
     }
 
     if (created) {
+      {
+        // Symbol addresses looked up while the sandbox was not created (for
+        // instance after destroy_sandbox) do not belong to this incarnation
+        RLBOX_ACQUIRE_UNIQUE_GUARD(lock, func_ptr_cache_lock);
+        func_ptr_map.clear();
+        internal_func_ptr_map.clear();
+      }
       sandbox_created.store(Sandbox_Status::CREATED);
       RLBOX_ACQUIRE_UNIQUE_GUARD(lock, sandbox_list_lock);
       sandbox_list.push_back(this);
